@@ -288,6 +288,14 @@ func (x *Exec) resolveName(fr *Frame, hdr *ssa.BasicBlock, name string, st *Stat
 		}
 		unsup("old(%s): no such parameter", name[4:])
 	}
+	if name == "verifIdx" {
+		for _, ins := range hdr.Instrs {
+			if phi, ok := ins.(*ssa.Phi); ok && phi.Comment == "rangeindex" {
+				return x.bvOp("bvadd", x.get(fr, phi).(*Term), x.w.ts.BV(1, 64))
+			}
+		}
+		unsup("verifIdx: loop is not a range-over-slice loop")
+	}
 	for _, ins := range hdr.Instrs {
 		if phi, ok := ins.(*ssa.Phi); ok && phi.Comment == name {
 			return x.get(fr, phi)
